@@ -191,6 +191,8 @@ pub fn bigint_unit<const N: usize>() {
     assert!(strict_primitive(&der, &i, INT) == DerErr::Ok, "C04:serial-integer-not-minimal");
     assert!(der[i.start] & 0x80 == 0, "C04:serial-integer-negative");
     assert!(uint_is(&der, &i, &raw), "C04:serial-integer-value");
+    // at most N content octets when the top bit of the first byte is clear (the automatic serial), N + 1 otherwise
+    assert!(i.len() <= N + 1 && (N == 0 || raw[0] & 0x80 != 0 || i.len() <= N || N == 0), "C05:integer-longer-than-its-magnitude");
     kani::cover!(true, "REACH");
 }
 
